@@ -129,6 +129,18 @@ def run(ctx):
     clr = need(where, calling(g, attr="store_uncommitted", recv="self.branch"), "self.branch.store_uncommitted(None)")
     k1_before(ctx, "R5-clear-after-restore", where, g, mg, clr, "stored changes are cleared only after they were merged back")
 
+    # ---- R6: cleaning up a contents conflict never removes <path>.THIS (the only copy of the user's bytes) ------------
+    CFB = "breezy/bzr/conflicts.py"
+    fca = repo.func(CFB, "ContentsConflict.associated_filenames")
+    mtree = repo.module(CFB).tree
+    consts = {norm(s_.targets[0]): s_.value for s_ in mtree.body if isinstance(s_, ast.Assign) and len(s_.targets) == 1}
+    sufs = set()
+    for n in ast.walk(fca):
+        if isinstance(n, ast.Constant) and isinstance(n.value, str) and n.value.startswith("."):
+            sufs.add(n.value)
+        if isinstance(n, ast.Name) and n.id in consts and isinstance(consts[n.id], (ast.Tuple, ast.List)):
+            sufs |= {e.value for e in consts[n.id].elts if isinstance(e, ast.Constant)}
+    ctx.check("R6-contents-conflict-keeps-this", f"{CFB}:ContentsConflict.associated_filenames", sufs == {".BASE", ".OTHER"}, f"the helper files removed when a contents conflict is resolved or reverted are .BASE and .OTHER only ({sorted(sufs)})", construct=str(sorted(sufs)), message=f"ContentsConflict.associated_filenames lists {sorted(sufs)}: for a contents conflict the merger has moved the user's file to <path>.THIS, so cleanup() (run by every revert / resolve) deletes the only copy of the uncommitted content, without a backup")
 
 def _enclosing_block(fn, node):
     """Innermost statement list (body/orelse/...) whose statements contain `node`."""
@@ -152,6 +164,7 @@ def _enclosing_block(fn, node):
 
 
 MUTANTS = [
+    Mutant("contents-conflict cleanup also removes .THIS", "breezy/bzr/conflicts.py", "        return [self.path + suffix for suffix in (\".BASE\", \".OTHER\")]", "        return [self.path + suffix for suffix in CONFLICT_SUFFIXES]", expect="R6-contents-conflict-keeps-this"),
     Mutant("delete_any made unconditional", WT, "                            if f in files_to_backup:\n                                message = backup(f)\n                            else:\n                                osutils.delete_any(abs_path)\n                                message = f\"deleted {f}\"", "                            osutils.delete_any(abs_path)\n                            message = f\"deleted {f}\"", expect="R2-delete-not-backed-up"),
     Mutant("rmtree without force", WT, "                            if force:\n                                osutils.rmtree(abs_path)", "                            if force or verbose:\n                                osutils.rmtree(abs_path)", expect="R2-rmtree-needs-force"),
     Mutant("merge-modified listing treated as proof", TR, "                if merge_modified.get(wt_path) != wt_sha1:", "                if wt_path not in merge_modified:", expect="R3-hash-compared-before-drop"),
